@@ -694,9 +694,17 @@ func GenWorldCfg(g *Rng, opt GenOpts) (World, map[string]any) {
 			rpmBlock["summary"] = "explicit summary"
 			rpmBlock["packager"] = "Verif Packager <rpm@verif.invalid>"
 		}
-		if g.Bool(0.3) {
+		if g.Bool(0.5) {
 			rpmBlock["prefixes"] = []any{"/usr", "/opt"}
 		}
+	}
+	if opt.SharedBias && x.feat("same_codec", 0.3) {
+		// every format that can, uses one compressor family at once (apk and
+		// ipk always gzip, archlinux always zstd): process-wide state of a
+		// compression library is then shared by the packagings of one run
+		c := Pick(g, []string{"zstd", "zstd", "gzip", "xz"})
+		debBlock["compression"] = c
+		rpmBlock["compression"] = c
 	}
 	if opt.FixMTime || g.Bool(0.7) {
 		rpmBlock["buildhost"] = "buildhost.verif.invalid"
@@ -829,6 +837,45 @@ func GenWorldCfg(g *Rng, opt GenOpts) (World, map[string]any) {
 	for _, f := range x.feats {
 		if f == "rpm_compression_invalid" {
 			rpmBlock["compression"] = "brotli"
+		}
+	}
+	repP := 0.2
+	if opt.SharedBias {
+		repP = 0.35
+	}
+	if x.feat("repeated_list_items", repP) {
+		// any list of names may carry the same name twice (copy-paste, two
+		// variables with one value): legal, and kept as written
+		var rep func(m map[string]any)
+		rep = func(m map[string]any) {
+			keys := make([]string, 0, len(m))
+			for k := range m {
+				keys = append(keys, k)
+			}
+			sort.Strings(keys)
+			for _, k := range keys {
+				switch v := m[k].(type) {
+				case map[string]any:
+					if k != "signature" && k != "fields" {
+						rep(v)
+					}
+				case []any:
+					if len(v) == 0 || !g.Bool(0.6) {
+						continue
+					}
+					if _, isStr := v[0].(string); !isStr {
+						continue
+					}
+					if g.Bool(0.5) {
+						m[k] = append(append([]any{}, v...), v[0]) // repeated at the end
+					} else {
+						m[k] = append([]any{v[0]}, v...) // twice in a row
+					}
+				}
+			}
+		}
+		for _, b := range []map[string]any{debBlock, rpmBlock, apkBlock, archBlock, ipkBlock} {
+			rep(b)
 		}
 	}
 	if len(debBlock) > 0 {
